@@ -24,10 +24,10 @@ import (
 )
 
 type sbValue struct {
-	Kind    string         `json:"kind"` // vote | proposal
-	ChainID string         `json:"chain_id"`
-	ChainHx string         `json:"chain_id_hex"`
-	Vote    *types.Vote    `json:"vote,omitempty"`
+	Kind    string          `json:"kind"` // vote | proposal
+	ChainID string          `json:"chain_id"`
+	ChainHx string          `json:"chain_id_hex"`
+	Vote    *types.Vote     `json:"vote,omitempty"`
 	Prop    *types.Proposal `json:"proposal,omitempty"`
 	ident   string
 	validCh bool
